@@ -481,3 +481,9 @@ mod test {
         }
     }
 }
+
+#[cfg(kani)]
+#[allow(warnings, clippy::all, clippy::pedantic)]
+mod verif_kani {
+    include!(concat!(env!("IPA_VERIF_DIR"), "/harness/send.rs"));
+}
